@@ -1,5 +1,6 @@
 import Panacea.Lemmas.Pnft
 import Panacea.Lemmas.PnftInv
+import Panacea.Lemmas.PnftOwner
 /-!
 # C12 — PNFT tokens: unique, immutable, isolated per denom, consistently indexed
 
@@ -14,8 +15,9 @@ entries are keyed by their own identifiers; proved for the empty store and prese
 fewer than `2^64` tokens exist): **every existing token belongs to an existing denom**
 (`token_belongs_to_existing_denom`), the `PNFTs` listing of a denom returns exactly the tokens of that denom
 (`pnfts_listing_exact`) and as many as its total supply says (`pnfts_listing_length`).
-**Partial:** exactness of `PNFTsByDenomOwner` (owner index) is covered by the correspondence stream and
-`mon.c12` only.
+From the owner invariant `OInv` (the owner table has exactly the token keys, the owner index exactly one
+entry per token under its current owner; same status): `PNFTsByDenomOwner` returns exactly the tokens of the denom
+currently held by the address (`pnftsByDenomOwner_listing_exact`).
 -/
 namespace Panacea.C12
 open Panacea CompKey Validate Pnft
@@ -160,6 +162,37 @@ example : getSupply (run { enc := id, dec := fun s => if s.length = 20 then some
      (3, .mintPNFT [0x64] [0x32] [0x6e] [] [] [] [] (List.replicate 20 1)),
      (4, .burnPNFT [0x64] [0x31] (List.replicate 20 1)),
      (5, .deleteDenom [0x64] (List.replicate 20 1))]) [0x64] = 1 := by decide
+
+
+/-! ## The owner index -/
+
+theorem oinv_genesis : OInv {} := oinv_empty
+
+/-- a lawful address codec decodes only to addresses of 1–255 bytes -/
+theorem lawful_decShort (c : AddrCodec) (hc : c.Lawful) : DecShort c := by
+  intro t a h
+  have := hc.dec_ok t a h
+  simp [addrOk] at this
+  omega
+
+theorem invariants_reachable (c : AddrCodec) (hc : DecShort c) (s : State) (B : Nat) (ops : List (Int × PnftMsg))
+    (hp : PInv s) (hi : OInv s) (hb : Pnft.Below s B) (hlt : B + ops.length < 2 ^ 64) :
+    PInv (run c s ops) ∧ OInv (run c s ops) :=
+  inv_run hc ops hp hi hb (by simpa using hlt)
+
+/-- **`PNFTsByDenomOwner` listing exactness**: exactly the tokens of the denom that the address currently owns,
+with the same content as the single-item view (`toPnft` is what `Query/PNFT` returns for that token). -/
+theorem pnftsByDenomOwner_listing_exact (c : AddrCodec) (hc : DecShort c) (s : State) (hp : PInv s) (hi : OInv s)
+    (d owner o : Bytes) (hd : NoNul d) (hdec : c.dec owner = some o) (l : List Pnft.Pnft)
+    (h : queryPNFTsByDenomOwner c s d owner = .ok l) (p : Pnft.Pnft) :
+    p ∈ l ↔ ∃ i n, s.nfts.get (nftKey d i) = some n ∧ s.owners.get (nftKey d i) = some o ∧ p = toPnft c s d i n :=
+  pnftsByDenomOwner_exact c hc s hp hi d owner o hd hdec l h p
+
+/-- every token has exactly one owner entry, and the single-item view reports it -/
+theorem token_has_owner (s : State) (hi : OInv s) (k : Bytes) (n : Nft) (h : s.nfts.get k = some n) :
+    ∃ o, s.owners.get k = some o ∧ o.length < 256 := by
+  obtain ⟨o, ho⟩ := hi.ownerOfToken k n h
+  exact ⟨o, ho, (hi.tokenOfOwner k o ho).2⟩
 
 example : nftKey [0x61] [0x62, 0x00, 0x63] = nftKey [0x61, 0x00, 0x62] [0x63] := by decide  -- why NUL had to go
 
